@@ -73,9 +73,16 @@ def bond(box, p, q):
 def build_protein(md, rng):
     top = md.Topology()
     E = md.element
-    for ci in range(rng.choice([1, 2])):
-        ch = top.add_chain()
-        for ri in range(rng.randrange(2, 6)):
+    nch = rng.choice([1, 2])
+    chains = [top.add_chain() for _ in range(nch)]
+    # the residues of two chains are created alternately in a quarter of the two-chain topologies (residue.index then interleaves the
+    # chains): the neighbours of a residue are those before and after it in ITS chain
+    plan = [(ci, ri) for ci in range(nch) for ri in range(rng.randrange(2, 6))]
+    if nch == 2 and rng.random() < 0.5:
+        plan.sort(key=lambda p: (p[1], p[0]))
+    for ci, ri in plan:
+        ch = chains[ci]
+        if True:
             r = top.add_residue(rng.choice(["ALA", "GLY", "SER", "HOH", "LIG"]), ch, ri + 1)
             names = ["N", "CA", "C", "O", "CB"]
             if r.name in ("HOH", "LIG"):
@@ -232,6 +239,15 @@ def run(ctx):
             ctx.broke("correspondence:" + rp["kind"], "%s cell atoms %s: impl %.6f model %.6f" % (mode, idx, got[True], mw))
     ctx.counters["excluded ill-conditioned or near ties"] = excluded
 
+    # ---- indices beyond the range of the 32-bit integers the kernels take must be refused, not wrapped around
+    tw = make(md, rng, "none")
+    for fn, row in ((md.compute_angles, [0, 1, 2 ** 32 + 2]), (md.compute_dihedrals, [0, 1, 2, 2 ** 32 + 3]), (md.compute_distances, [0, 2 ** 32 + 1])):
+        ctx.case(None, ("index-wrap", fn.__name__)); ctx.count("out-of-range index calls")
+        try:
+            got = fn(tw, np.array([row], dtype=np.int64))
+            viol("index|wraps|" + fn.__name__, "%s with the atom index %d (int64) on %d atoms returned %s instead of refusing it" % (fn.__name__, row[-1], tw.n_atoms, got.ravel()[:2]), dict(indices=row))
+        except (ValueError, IndexError, OverflowError):
+            pass
     # ---- named torsions
     treqs, tmeta = [], []
     for _ in range(ctx.n(40, 300)):
@@ -246,8 +262,10 @@ def run(ctx):
         """the rows are the documented atoms of one residue window in one chain, each residue once, none missing (oracle: the topology itself)"""
         atoms = list(top.atoms)
         rows_seen = set()
+        rpos = {id(r_): (c_.index, p_) for c_ in top.chains for p_, r_ in enumerate(c_.residues)}     # position of a residue within its chain
+        rlist = {c_.index: list(c_.residues) for c_ in top.chains}
         for row in idx.tolist():
-            rids = [atoms[a].residue.index - off for a, (nm, off) in zip(row, PAT[which])]
+            rids = [(rpos[id(atoms[a].residue)][0], rpos[id(atoms[a].residue)][1] - off) for a, (nm, off) in zip(row, PAT[which])]
             ok = all(atoms[a].name == nm for a, (nm, off) in zip(row, PAT[which])) and len(set(rids)) == 1 and len({atoms[a].residue.chain.index for a in row}) == 1
             if not ok or rids[0] in rows_seen:
                 viol("torsion|%s%s" % (which, tag), "indices_%s returned %s%s: not the documented atoms of one residue window in one chain (or a residue twice)" % (
@@ -258,8 +276,9 @@ def run(ctx):
             try:
                 want = []
                 for nm, off in PAT[which]:
-                    r2 = top.residue(res.index + off) if 0 <= res.index + off < top.n_residues else None
-                    if r2 is None or r2.chain.index != res.chain.index:
+                    ci_, pi_ = rpos[id(res)]
+                    r2 = rlist[ci_][pi_ + off] if 0 <= pi_ + off < len(rlist[ci_]) else None
+                    if r2 is None:
                         raise KeyError
                     cands = [a.index for a in r2.atoms if a.name == nm]
                     if not cands:
@@ -279,8 +298,10 @@ def run(ctx):
         ctx.count("named torsion tables")
         atoms = list(top.atoms)
         rows_seen = set()
+        rpos = {id(r_): (c_.index, p_) for c_ in top.chains for p_, r_ in enumerate(c_.residues)}     # position of a residue within its chain
+        rlist = {c_.index: list(c_.residues) for c_ in top.chains}
         for row in idx.tolist():
-            rids = [atoms[a].residue.index - off for a, (nm, off) in zip(row, PAT[which])]
+            rids = [(rpos[id(atoms[a].residue)][0], rpos[id(atoms[a].residue)][1] - off) for a, (nm, off) in zip(row, PAT[which])]
             ok = all(atoms[a].name == nm for a, (nm, off) in zip(row, PAT[which])) and len(set(rids)) == 1 and len({atoms[a].residue.chain.index for a in row}) == 1
             if not ok or rids[0] in rows_seen:
                 viol("torsion|" + which, "indices_%s returned %s: not the documented atoms of one residue window in one chain (or a residue twice)" % (which, row), dict(torsion=which, top=enc_top(dump_top(top))))
@@ -290,8 +311,9 @@ def run(ctx):
             try:
                 want = []
                 for nm, off in PAT[which]:
-                    r2 = top.residue(res.index + off) if 0 <= res.index + off < top.n_residues else None
-                    if r2 is None or r2.chain.index != res.chain.index:
+                    ci_, pi_ = rpos[id(res)]
+                    r2 = rlist[ci_][pi_ + off] if 0 <= pi_ + off < len(rlist[ci_]) else None
+                    if r2 is None:
                         raise KeyError
                     cands = [a.index for a in r2.atoms if a.name == nm]
                     if not cands:
@@ -302,7 +324,10 @@ def run(ctx):
             except KeyError:
                 pass
         if m is not None:
-            mm = ";".join(part.split(":")[1] for part in m.split(";")) if m else ""
+            nest = [a.index for c_ in top.chains for r_ in c_.residues for a in r_.atoms]      # real index of the k-th atom in chain/residue order
+            mrows = [[nest[int(x)] for x in part.split(":")[1].split(",")] for part in m.split(";")] if m else []
+            mm = ";".join(",".join(map(str, row)) for row in sorted(mrows))
+            got = ";".join(",".join(map(str, row)) for row in sorted(idx.tolist()))
             if mm != got:
                 ctx.broke("correspondence:torsion-indices", "%s: impl %s model %s" % (which, got, mm))
     # ---- the same Topology object edited in place between two calls (atoms renamed, as when repairing force-field names): the second
